@@ -320,6 +320,31 @@ claim('C16',
       'protocol table in vf/props/c16.py (from the code comments / EBB EM documentation).',
       'DESIGN.md section 3, C16')
 
+claim('C19',
+      'abstract interpretation of the discovery functions on abstract port lists (exact '
+      'unrolling over lists of opaque entries; predicate oracle per port class) - exhaustive '
+      'enumeration of port-class lists; structural recognition of needles/haystacks and their '
+      'case folding; purity rule for the enumeration',
+      'Decides, exhaustively over the abstraction: D1 findPort and EBB3.find_first, for all 85 '
+      'lists of <= 3 ports over {name match, id match, both, neither}, yield the device of the '
+      'first name-matching port, else of the first id-matching port, else None. D2 every '
+      'product-name / USB-id test in the four finder/lister sites is startswith on the '
+      'description / hardware id with exactly "EiBotBoard" / "USB VID:PID=04D8:FD92". D3 both '
+      'listers return exactly the matching entries, unmodified, in order, None when empty. D4 '
+      'find_named_ebb and find_named, for all lists of <= 2 ports over the subsets of criteria '
+      '{SER= tag, (name) in description, description[11:] prefix, device prefix, legacy SNR=}, '
+      'return the original device string of the first port meeting any criterion, else None; '
+      'every needle and haystack is lower-cased on both sides; None for a None name; the layers '
+      'differ only in SNR=. D5 list_named_ebbs reports description[11:] / the text after SER= up '
+      'to " LOCAT" / (legacy) after SNR= / the device - the same offset and tags the lookup '
+      'compares, offset = len("EiBotBoard")+1. R the functions read no module-level mutable '
+      'state (each call answers from its own enumeration). Lists longer than 3 (2) ports follow '
+      'because the loops treat entries uniformly (each iteration depends only on the entry and '
+      'the found-flag). Not decided: what descriptor strings each OS produces.',
+      'Trusted: Python ast, vf/interp.py, str.startswith / in / lower semantics; USB VID 04D8 PID '
+      'FD92 and product string "EiBotBoard".',
+      'DESIGN.md section 3, C19')
+
 
 def build():
     checks = []
